@@ -4,8 +4,18 @@ C16 — model of what a transaction block does when backend commands fail.
 
 Mirrors `cashews/wrapper/transaction.py` (`TransactionContextDecorator.__aenter__/__aexit__/close`,
 `Transaction.wrap/commit/rollback/_rollback`) and `cashews/backends/transaction.py`
-(`TransactionBackend.set/incr/get/delete/commit/rollback`, `LockTransactionBackend._lock_updates/
-_unlock_updates/commit/rollback`) for ONE task, in an exception monad over a world state.
+(`TransactionBackend.set/incr/get/delete/set_many/delete_many/commit/rollback`,
+`LockTransactionBackend._lock_updates/_unlock_updates/set_many/delete_many/commit/rollback`) for ONE task (the
+*victim*), in an exception monad over a world state.
+
+Other tasks appear as an **environment**: lock keys may be held by foreign owners (entries with `mine = false`),
+and `env : Nat → List (backend × lock key)` says which foreign locks are RELEASED just before backend command
+number `i` of the victim takes effect (another open transaction committing / rolling back while the victim runs:
+during one of the `asyncio.sleep(step)` of the victim's wait loop, or while a command is in flight).  A blocked
+`_lock_updates` (its `set_lock` answers False while the foreign entry is live) retries after a lock-step, up to
+`attempts` times, then raises `LockedError`.  Acquisition is SEQUENTIAL, as in the code (`for key in pairs: await
+self._lock_updates(key)`): a blocked acquisition has succeeded or raised before the next command starts, so no lock
+attempt is pending when the block is left.
 
 Failures come from a **fault oracle** `fails : Nat → Bool` on the global index of backend commands:
 every command sent to a real backend bumps `counter`, is logged, and raises `Err.fault idx` *instead of
@@ -128,6 +138,8 @@ structure Cfg where
   attempts : Nat                -- iterations of the `while wait > 0.0` loop of `_lock_updates` (= f(timeout))
   uprio : List (Nat × Nat)      -- iteration order of the `_locks` *sets* (hash order; any order is allowed)
   fails : Nat → Bool            -- the fault oracle
+  stepDt : Nat                  -- how much of the clock one `asyncio.sleep(step)` of the wait loop takes (any amount)
+  env : Nat → List (Nat × Nat)  -- the environment: foreign locks (backend, lock key) released just before command `i`
 
 /-! ### the monad -/
 
@@ -200,11 +212,22 @@ def applyCmd (b : Nat) (c : BCmd) (w : FWorld) : Reply × FWorld :=
   | .deleteMany ks => (.unit, { w with data := ks.foldl (fun d k => alErase d (b, k)) w.data })
   | .setMany kvs ttl => (.unit, { w with data := kvs.foldl (fun d kv => memSet w.now d (b, kv.1) kv.2 ttl) w.data })
 
-/-- every backend command bumps the counter, is logged, and raises iff `fails counter` -/
+/-- the environment releases one foreign lock: the other owner's `unlock` deletes its own entry; an entry
+carrying the victim's token is never touched by anybody else (`unlock` is owner-checked) -/
+def relOne (locks : List ((Nat × Nat) × LEntry)) (key : Nat × Nat) : List ((Nat × Nat) × LEntry) :=
+  match alLookup locks key with
+  | some e => if e.mine then locks else alErase locks key
+  | none => locks
+
+def envRel (keys : List (Nat × Nat)) (locks : List ((Nat × Nat) × LEntry)) : List ((Nat × Nat) × LEntry) :=
+  keys.foldl relOne locks
+
+/-- every backend command bumps the counter, is logged, and raises iff `fails counter`; what the environment
+does up to that command (`env counter`) has happened before it takes effect -/
 def backendCmd (cfg : Cfg) (b : Nat) (c : BCmd) : M Reply := fun w =>
   let i := w.counter
   let bad := cfg.fails i
-  let w1 := { w with counter := i + 1, log := w.log ++ [⟨i, b, c, bad⟩] }
+  let w1 := { w with counter := i + 1, log := w.log ++ [⟨i, b, c, bad⟩], locks := envRel (cfg.env i) w.locks }
   if bad then (.err (.fault i), w1)
   else
     match applyCmd b c w1 with
@@ -238,15 +261,20 @@ def lockKey (m : Mode) (k : Nat) : Nat :=
   | .serializable => 0
   | _ => k + 1
 
-/-- the `while wait > 0.0` loop of `_lock_updates`: `set_lock`; on success remember the key; otherwise
-`asyncio.sleep(step)` (symbolic: the sleeps are 0.1 s, not whole ticks) and retry; `LockedError` at the end.
-(The re-check `if lock_key in self._locks` after a failed attempt cannot fire in a single task.) -/
+/-- the `while wait > 0.0` loop of `_lock_updates`: `set_lock`; on success remember the key; otherwise (the key
+is held by a live foreign entry) `asyncio.sleep(step)` — one lock-step, taking `stepDt` of the clock (the real
+sleeps are 0.1 s, not whole ticks: the correspondence runs with `stepDt = 0` and compares no clock in contended
+runs) — and retry; `LockedError` at the end.  The foreign entry may be released by the environment before any of
+the retries.  (The re-check `if lock_key in self._locks` after a failed attempt cannot fire: acquisitions of one
+transaction backend are sequential.) -/
 def lockLoop (cfg : Cfg) (b lk : Nat) : Nat → M Unit
   | 0 => throw .locked
   | n + 1 => do
     let r ← backendCmd cfg b (.setLock lk cfg.timeout)
     if r = .bool true then modB b (fun t => { t with locks := t.locks ++ [lk] })
-    else lockLoop cfg b lk n
+    else do
+      modW fun w => { w with now := w.now + cfg.stepDt }
+      lockLoop cfg b lk n
 
 /-- `LockTransactionBackend._lock_updates(key)`; `TransactionBackend` (fast mode) has none -/
 def lockUpdates (cfg : Cfg) (b k : Nat) : M Unit := do
@@ -313,6 +341,38 @@ def txDelete (cfg : Cfg) (b k : Nat) : M Reply := do
   lockUpdates cfg b k
   modB b fun t => { t with ov := alErase t.ov k, del := addDel t.del k }
   pure (.bool true)
+
+/-- `for key in pairs: await self._lock_updates(key)` — one key after the other: the acquisition of a key has
+returned or raised before the next one starts -/
+def lockAll (cfg : Cfg) (b : Nat) : List Nat → M Unit
+  | [] => pure ()
+  | k :: rest => do
+    lockUpdates cfg b k
+    lockAll cfg b rest
+
+/-- facade `cache.set_many(pairs, expire)` with all keys on backend `b` (distinct keys: `pairs` is a dict):
+`LockTransactionBackend.set_many` locks every key in turn, then `TransactionBackend.set_many`:
+`_to_delete.difference_update(pairs.keys()); _local_cache.set_many(pairs, expire)`.  Empty `pairs`: the facade
+reaches no backend at all. -/
+def txSetMany (cfg : Cfg) (b : Nat) (kvs : List (Nat × Int)) (ttl : Option Nat) : M Reply := do
+  if kvs = [] then pure .unit
+  else do
+    wrap b
+    lockAll cfg b (kvs.map (·.1))
+    let w ← getW
+    modB b fun t => { t with del := t.del.filter (fun k => k ∉ kvs.map (·.1)),
+                             ov := kvs.foldl (fun ov kv => memSet w.now ov kv.1 kv.2 ttl) t.ov }
+    pure .unit
+
+/-- facade `cache.delete_many(*keys)` with all keys on backend `b`: lock every key in turn, then
+`_local_cache.delete_many(*keys); _to_delete.update(keys)` -/
+def txDelMany (cfg : Cfg) (b : Nat) (ks : List Nat) : M Reply := do
+  if ks = [] then pure .unit
+  else do
+    wrap b
+    lockAll cfg b ks
+    modB b fun t => { t with ov := ks.foldl alErase t.ov, del := ks.foldl addDel t.del }
+    pure .unit
 
 /-! ### commit / rollback of one wrapped backend -/
 
@@ -428,6 +488,8 @@ inductive BodyCmd where
   | delete (b k : Nat)
   | adv (dt : Nat)          -- time passes
   | raise                   -- the body raises its own exception
+  | setMany (b : Nat) (kvs : List (Nat × Int)) (ttl : Option Nat)
+  | delMany (b : Nat) (ks : List Nat)
   deriving DecidableEq, Repr
 
 def emit (r : Reply) : M Unit := modW fun w => { w with outs := w.outs ++ [r] }
@@ -439,6 +501,8 @@ def bodyStep (cfg : Cfg) : BodyCmd → M Unit
   | .delete b k => do let r ← txDelete cfg b k; emit r
   | .adv dt => modW fun w => { w with now := w.now + dt }
   | .raise => throw .body
+  | .setMany b kvs ttl => do let r ← txSetMany cfg b kvs ttl; emit r
+  | .delMany b ks => do let r ← txDelMany cfg b ks; emit r
 
 def runBody (cfg : Cfg) : List BodyCmd → M Unit
   | [] => M.pure ()
